@@ -238,3 +238,15 @@ def scales_a_twin_in_place(values, f):
 def scales_a_copy(values, f):
     first, second, third = _twice(values)
     return first * f + second + third
+
+
+def separable_in_place(coordinates):
+    out = np.sin(coordinates[0])
+    out *= np.cos(coordinates[1])
+    return out
+
+
+def separable_out_of_place(coordinates):
+    out = np.sin(coordinates[0]) * np.cos(coordinates[1])
+    out *= 2
+    return out
